@@ -66,6 +66,8 @@ def rule_gr3(prog, G):
                         new = set(flat[cb[1]]) if cb[1] < len(flat) else set()
                     elif cb[0] in ('construct', 'construct-other'):
                         new = {cb[1].name}
+                    elif cb[0] == 'function':
+                        new = {'<via %s>' % cb[1].name}
                     elif cb[0] == 'const':
                         new = {cb[1].name}
                     elif cb[0] == 'atom':
